@@ -149,13 +149,9 @@ def norm(
     """
     if isinstance(ord, Real) and np.isinf(ord):
         op = mg_max if ord > 0 else mg_min
-        abs_ = absolute(x, constant=constant)
-        if not np.issubdtype(abs_.dtype, np.inexact):
-            # numpy.linalg.norm computes the norm of integer / boolean data in float64
-            abs_ = abs_.astype(np.float64)
-        out = op(abs_, axis=axis, keepdims=keepdims)
 
-        in_ndim = abs_.ndim  # (`abs_.creator` is None when graph-tracking is off)
+        # (refuse before anything is computed: a refused call leaves `x` as it was)
+        in_ndim = x.ndim if isinstance(x, Tensor) else np.ndim(x)
 
         if (axis is None and ord is not None and in_ndim == 2) or (
             hasattr(axis, "__len__") and len(axis) > 1
@@ -163,7 +159,12 @@ def norm(
             raise NotImplementedError(
                 "mygrad.linalg.norm does not support matrix norms"
             )
-        return out
+
+        abs_ = absolute(x, constant=constant)
+        if not np.issubdtype(abs_.dtype, np.inexact):
+            # numpy.linalg.norm computes the norm of integer / boolean data in float64
+            abs_ = abs_.astype(np.float64)
+        return op(abs_, axis=axis, keepdims=keepdims)
     return Tensor._op(
         Norm,
         x,
